@@ -8,6 +8,7 @@ GL-GRID every site that rebuilds a landscape's sampling grid uses np.linspace(st
         landscape with the default end-point convention;
 GL-SNAP snapping picks, per coordinate, the nearest grid node (argmin of |node − x| over the grid axis), both
         coordinates against the same axis — the only part of the half-step bound that is structural;
+GL-INDEX the grid position of a snapped end-point is an exact lookup or a rounded quotient, never a truncated one;
 GL-DV   the death vector is the descending sort of the death column of dgms[hom_deg] and rejects hom_deg ≠ 0;
 GL-INF  infinite bars are removed before start/stop default to min birth / max death.
 This is the weakest claim of the suite.
@@ -212,6 +213,55 @@ def check_snap(project: Project, rep):
                     construct=f"{cl.qualname}: snapping")
 
 
+def check_index(project: Project, rep):
+    """GL-INDEX: the position of a snapped end-point on the grid comes from an exact lookup or a rounded quotient —
+    never from int() truncation of a float quotient ((g_i − start)/step evaluates to i − ε for many i)"""
+    cl = project.function(f"{AP}.compute_landscape")
+    f = cl.node
+    used_as_index = set()
+    for n in ast.walk(f):
+        if isinstance(n, ast.Subscript):
+            for x in ast.walk(n.slice):
+                if isinstance(x, ast.Name):
+                    used_as_index.add(x.id)
+    found = 0
+    for n in ast.walk(f):
+        if not (isinstance(n, ast.Assign) and isinstance(n.targets[0], ast.Name) and n.targets[0].id in used_as_index):
+            continue
+        v = n.value
+        name = n.targets[0].id
+
+        def truncating(e):
+            if isinstance(e, ast.Call) and isinstance(e.func, ast.Name) and e.func.id == "int" and e.args:
+                inner = e.args[0]
+                rounded = isinstance(inner, ast.Call) and ast.unparse(inner.func) in ("round", "np.round", "np.rint", "np.around",
+                                                                                       "np.ceil", "np.floor", "math.floor", "math.ceil")
+                has_div = any(isinstance(x, ast.BinOp) and isinstance(x.op, ast.Div) for x in ast.walk(inner))
+                return has_div and not rounded
+            if isinstance(e, ast.BinOp) and isinstance(e.op, ast.FloorDiv):
+                # floor division of floats truncates the same way; integer // integer is exact
+                return any(isinstance(x, ast.Attribute) and x.attr in ("start", "stop") for x in ast.walk(e)) or \
+                    any(isinstance(x, ast.Name) and x.id == "step" for x in ast.walk(e))
+            return False
+
+        if truncating(v):
+            found += 1
+            rep.refuted("GL-INDEX", cl, n,
+                        f"grid index `{name}` is obtained by truncating a floating-point quotient ({ast.unparse(v)}): for an "
+                        f"end-point lying exactly on node i the quotient is often i − ε, so the bar is sampled one whole step "
+                        f"low (error of a full step instead of half a step; not exact on-grid)")
+        elif isinstance(v, ast.Subscript) and isinstance(v.value, ast.Name):
+            # lookup in a table built from the grid itself
+            tab = v.value.id
+            src = [a for a in ast.walk(f) if isinstance(a, ast.Assign) and isinstance(a.targets[0], ast.Name) and a.targets[0].id == tab]
+            if src and "zip" in ast.unparse(src[0].value) and "dict" in ast.unparse(src[0].value):
+                found += 1
+                rep.discharged("GL-INDEX", cl, n, f"grid index `{name}` is an exact lookup of the snapped value in the grid's own "
+                                                  f"value→position table")
+    if not found:
+        rep.unmodelled("GL-INDEX", cl, f, "how snapped end-points are turned into grid positions was not recognised")
+
+
 def check_dv_inf(project: Project, rep):
     fi = project.function("persim.landscapes.tools.death_vector")
     rep.analysed(fi)
@@ -274,6 +324,7 @@ def run(project: Project, rep, tier: str):
     check_fwd(project, rep)
     check_grid(project, rep)
     check_snap(project, rep)
+    check_index(project, rep)
     check_dv_inf(project, rep)
-    for rn, n in (("GL-FWD", 3), ("GL-GRID", 7), ("GL-SNAP", 3), ("GL-DV", 2), ("GL-INF", 3)):
+    for rn, n in (("GL-FWD", 3), ("GL-GRID", 7), ("GL-SNAP", 3), ("GL-INDEX", 2), ("GL-DV", 2), ("GL-INF", 3)):
         rep.floor(rn, n)
